@@ -118,6 +118,9 @@ def _child(rfd, wfd):
         os._exit(code)
 
 
+READY = (json.dumps({"ready": True}) + "\n").encode()
+
+
 def main():
     rfd, wfd = int(sys.argv[1]), int(sys.argv[2])
     try:
@@ -125,19 +128,23 @@ def main():
     except BaseException:
         os.write(wfd, (json.dumps({"ready": False, "error": traceback.format_exc()}) + "\n").encode())
         return 3
-    # warm-up forks: bring the parent's allocator into its steady state, so that every later child
-    # starts from the same heap (id()-dependent behaviour of the code under test then replays)
-    for _ in range(3):
-        pid = os.fork()
-        if pid == 0:
-            os._exit(0)
-        os.waitpid(pid, 0)
-    os.write(wfd, (json.dumps({"ready": True, "hashseed": os.environ.get("PYTHONHASHSEED")}) + "\n").encode())
+    # The parent performs the same allocation sequence between any two forks, so every child starts from the same
+    # heap (id()-dependent behaviour of the code under test then replays). The first WARMUP iterations run the very
+    # same loop body with children that exit at once: they bring the parent's allocator into its steady state.
+    WARMUP = 4
+    n = 0
+    announced = False
     while True:
+        if n == WARMUP and not announced:
+            os.write(wfd, READY)
+            announced = True
         pid = os.fork()
         if pid == 0:
+            if n < WARMUP:
+                os._exit(0)
             _child(rfd, wfd)
         _, st = os.waitpid(pid, 0)
+        n = n + 1 if n < WARMUP else WARMUP
         if st == 0:
             continue
         code = os.waitstatus_to_exitcode(st)
